@@ -365,6 +365,16 @@ class Batch:
                     o = json.load(open(w["out"]))
                     o["_out"] = w["out"]
                     outs.append(o)
+                    # shadow workers continue in a fresh process after a run in which a panic unwound
+                    # inside the simulation; each earlier process left its statistics in <out>.part<k>
+                    import glob as _glob
+                    for pf in sorted(_glob.glob(w["out"] + ".part*")):
+                        if pf.endswith(".u64"):
+                            continue
+                        po = json.load(open(pf))
+                        po["_out"] = pf
+                        po["violations"] = []
+                        outs.append(po)
                 except Exception as e:  # noqa
                     die(f"worker {self.name}/{w['tag']} wrote no valid output: {e}")
             live = nxt
@@ -876,6 +886,7 @@ def check_c18(tier, seed):
         for o in souts:
             shadow_stats["executions"] += o["executions"]
             shadow_stats["scenarios"] += o["runs"]
+            shadow_stats["runs_discarded_after_a_panic_inside_the_simulation"] = shadow_stats.get("runs_discarded_after_a_panic_inside_the_simulation", 0) + o.get("tainted_runs", 0)
             merge_counts(fired, o["fired"])
             for v in o["violations"]:
                 v["engine"] = "shadow"
